@@ -26,6 +26,12 @@ TrHObs == /\ IsEvent("hobs") /\ Consume /\ halive
                 /\ (Len(Ev.lbv[i]) >= 5 => /\ Ev.lbv[i][4] = <<>>
                                            /\ ToSet(Ev.lbv[i][5]) = DOMAIN hm /\ Len(Ev.lbv[i][5]) = Cardinality(DOMAIN hm))
           /\ UNCHANGED <<hm, halive, ls>>
+(* an append for whose node no memory could be had returns the list it was given; a key listing that loses one node this way still lists the others *)
+TrLAppFail == IsEvent("lappfail") /\ Consume /\ Ev.same = 1 /\ UNCHANGED <<hm, halive, ls>>
+TrHKeysFail == /\ IsEvent("hkeysfail") /\ Consume /\ halive
+               /\ ToSet(Ev.keys) \subseteq HKeysOf /\ Len(Ev.keys) = Cardinality(ToSet(Ev.keys))
+               /\ Ev.len = Cardinality(HKeysOf) - (IF Ev.n <= Cardinality(HKeysOf) THEN 1 ELSE 0)
+               /\ UNCHANGED <<hm, halive, ls>>
 TrLApp == IsEvent("lapp") /\ Consume /\ LAppend(Ev.x) /\ UNCHANGED <<hm, halive>>
 TrLPre == IsEvent("lpre") /\ Consume /\ LPrepend(Ev.x) /\ UNCHANGED <<hm, halive>>
 TrLRem == IsEvent("lrem") /\ Consume /\ LRemove(Ev.x) /\ UNCHANGED <<hm, halive>>
@@ -35,6 +41,6 @@ TrLObs == /\ IsEvent("lobs") /\ Consume
           /\ Ev.seq = ls /\ Ev.len = Len(ls) /\ Ev.last = LLast
           /\ UNCHANGED <<hm, halive, ls>>
 TrReset == IsEvent("Reset") /\ Consume /\ hm' = <<>> /\ halive' = FALSE /\ ls' = <<>>
-CNext == TrHNew \/ TrHIns \/ TrHRem \/ TrHFree \/ TrHObs \/ TrLApp \/ TrLPre \/ TrLRem \/ TrLRev \/ TrLFree \/ TrLObs \/ TrReset
+CNext == TrLAppFail \/ TrHKeysFail \/ TrHNew \/ TrHIns \/ TrHRem \/ TrHFree \/ TrHObs \/ TrLApp \/ TrLPre \/ TrLRem \/ TrLRev \/ TrLFree \/ TrLObs \/ TrReset
 CSpec == CInit /\ [][CNext]_cvars
 ====
